@@ -299,7 +299,9 @@ def completeTask (p : Pool) (t : Nat) (o : Outcome) : Pool :=
   match p.tasks[t]? with
   | none => p
   | some tk =>
-    (p.modTask t fun x => { x with phase := .finished, outcome := some o, sched := false, mustCancel := false }).emitChildren tk.doneCbs
+    -- the done-callbacks of a future are scheduled once, when it completes (a future cannot complete twice)
+    (p.modTask t fun x => { x with phase := .finished, outcome := some o, sched := false, mustCancel := false }).emitChildren
+      (if tk.outcome.isSome then [] else tk.doneCbs)
 
 def finishTask (p : Pool) (t : Nat) : Pool :=
   match p.tasks[t]? with
@@ -460,7 +462,8 @@ def finishMeta (p : Pool) (m : Nat) (o : Outcome) : Pool :=
   | some r =>
     -- asyncio: a coroutine that returns while `must_cancel` is still set leaves a *cancelled* Task
     let o := if o == .ok && r.mustCancel then .cancelled else o
-    (p.modReq m fun x => { x with frame := .done, outcome := some o, sched := false, mustCancel := false }).emitChildren r.doneCbs
+    (p.modReq m fun x => { x with frame := .done, outcome := some o, sched := false, mustCancel := false }).emitChildren
+      (if r.outcome.isSome then [] else r.doneCbs)
 
 def addToGroup : List (String × List Nat) → String → Nat → List (String × List Nat)
   | [], g, id => [(g, [id])]
